@@ -414,6 +414,14 @@ def run_world(world, monitor=None, wall_limit=WALL_LIMIT_S):
         _tasks.random = TapeRandomModule(B.REAL_RANDOM, tape)
         EventTime._rng = TapeUniform(tape)
     out.tape = tape
+    adv_saved = None
+    if world.get("adv") is not None:
+        # the scheduling policy becomes part of the environment (vf/adv.py)
+        import schedulers as _sched
+        from . import adv as _adv
+        _adv.TAPE, _adv.CONFIG = tape, world["adv"]
+        adv_saved = _sched.EDFScheduler
+        _sched.EDFScheduler = _adv.make_class()
     CURRENT = mon
     old = signal.signal(signal.SIGALRM, _alarm_handler)
     signal.alarm(int(wall_limit))
@@ -458,6 +466,9 @@ def run_world(world, monitor=None, wall_limit=WALL_LIMIT_S):
         CURRENT = None
         _tasks.random = saved_random
         EventTime._rng = saved_rng
+        if adv_saved is not None:
+            _sched.EDFScheduler = adv_saved
+            _adv.TAPE = _adv.CONFIG = None
     out.wall = _time.time() - t0
     out.rows = list(B.ROWS)
     sim = getattr(mon, "sim", None)
